@@ -5,3 +5,6 @@
 pub mod common;
 pub mod c13;
 pub mod c15;
+pub mod transport;
+pub mod conn;
+pub mod c06;
